@@ -13,6 +13,7 @@
 #include <stdio.h>
 #include <string.h>
 
+#include <atomic>
 #include <sstream>
 
 namespace muduo
@@ -38,6 +39,7 @@ class LoggerImpl
 __thread char t_errnobuf[512];
 __thread char t_time[64];
 __thread time_t t_lastSecond;
+__thread int t_lastZoneGen;  // value of g_logTimeZoneGen when t_time was formatted
 
 const char* strerror_tl(int savedErrno)
 {
@@ -108,6 +110,9 @@ void defaultFlush()
 Logger::OutputFunc g_output = defaultOutput;
 Logger::FlushFunc g_flush = defaultFlush;
 TimeZone g_logTimeZone;
+// bumped by Logger::setTimeZone(): t_time of every thread was formatted in the
+// zone that was configured then, so it must not be reused for the new zone
+std::atomic<int> g_logTimeZoneGen(0);
 
 }  // namespace muduo
 
@@ -135,9 +140,11 @@ void Logger::Impl::formatTime()
   int64_t microSecondsSinceEpoch = time_.microSecondsSinceEpoch();
   time_t seconds = static_cast<time_t>(microSecondsSinceEpoch / Timestamp::kMicroSecondsPerSecond);
   int microseconds = static_cast<int>(microSecondsSinceEpoch % Timestamp::kMicroSecondsPerSecond);
-  if (seconds != t_lastSecond)
+  int zoneGen = g_logTimeZoneGen;
+  if (seconds != t_lastSecond || zoneGen != t_lastZoneGen)
   {
     t_lastSecond = seconds;
+    t_lastZoneGen = zoneGen;
     struct DateTime dt;
     if (g_logTimeZone.valid())
     {
@@ -223,4 +230,5 @@ void Logger::setFlush(FlushFunc flush)
 void Logger::setTimeZone(const TimeZone& tz)
 {
   g_logTimeZone = tz;
+  ++g_logTimeZoneGen;
 }
